@@ -11,6 +11,7 @@ Svc(name, ord, rq, pos, neg) == [name |-> name, ord |-> ord, rq |-> rq, pos |-> 
 \* Sf: 31 v v      -> 71 v v
 \* Sg: 22 v v      -> 62 v v         (same prefix as Sb, different length)
 \* Sh: 2EF1 v      -> 6EF1 v         (SID and identifier in ONE 16 bit constant)
+\* Sk: FF v        -> BF v           (the last service identifier)
 \* Si: 85 v        -> C5 v           neg 7F 85 NRC{12} and, a second response, 7F 85 NRC{22}
 MCServices == {
   Svc("Sa", 1, Obj("RQ_Sa", <<16>>, 1, -1, {}), <<Obj("PR_Sa", <<80>>, 1, -1, {})>>, <<>>),
@@ -22,12 +23,13 @@ MCServices == {
   Svc("Sg", 7, Obj("RQ_Sg", <<34>>, 2, -1, {}), <<Obj("PR_Sg", <<98>>, 2, -1, {})>>, <<>>),
   Svc("Sh", 8, Obj("RQ_Sh", <<46, 241>>, 1, -1, {}), <<Obj("PR_Sh", <<110, 241>>, 1, -1, {})>>, <<>>),
   Svc("Sj", 10, Obj("RQ_Sj", <<0>>, 1, -1, {}), <<Obj("PR_Sj", <<64>>, 1, -1, {})>>, <<>>),     \* the service identifier 00
+  Svc("Sk", 11, Obj("RQ_Sk", <<255>>, 1, -1, {}), <<Obj("PR_Sk", <<191>>, 1, -1, {})>>, <<>>),   \* the service identifier FF
   Svc("Si", 9, Obj("RQ_Si", <<133>>, 1, -1, {}), <<Obj("PR_Si", <<197>>, 1, -1, {})>>,
       <<Obj("NR_Si", <<127, 133>>, 1, 2, {18}), Obj("NR_Si_2", <<127, 133>>, 1, 2, {34})>>)
 }
 \* global negative responses: with the echo of the request's first byte, and without
 MCGnrs == {<<>>, <<[name |-> "GNR1", echo |-> TRUE]>>, <<[name |-> "GNR2", echo |-> FALSE]>>}
-MCBytes == {16, 34, 241, 144, 49, 98, 127, 5, 46, 133, 0}
+MCBytes == {16, 34, 241, 144, 49, 98, 127, 5, 46, 133, 0, 255}
 
 AllMsgs == Messages \cup OwnMessages(layer)
 OwnMsg(o) == o.pre \o [k \in 1..o.n |-> IF o.nrcpos = Len(o.pre) + k - 1 THEN (CHOOSE v \in o.nrcs : TRUE) ELSE 5]
